@@ -702,3 +702,55 @@ def check(run: Run, prog: Program):
     run.floor("functions analysed", len(an.fa), 600)
     run.floor("restore pairs recognised", n_pairs // 2, 3)
     return an
+
+
+_PURITY = {}
+
+
+def purity(prog: Program) -> Purity:
+    if prog not in _PURITY:
+        an = Purity(prog)
+        an.compute()
+        _PURITY[prog] = an
+    return _PURITY[prog]
+
+
+def p1_restricted(run: Run, rule: str, prog: Program, origin_pred, what: str,
+                  floor: int = 1, include_state=False):
+    """P1 restricted to memoised values selected by origin_pred(origin: str);
+    used by properties that host the purity clause for their own arrays."""
+    an = purity(prog)
+    n = 0
+    for f, fa in sorted(an.fa.items(), key=lambda kv: kv[0].qualname):
+        for m in fa.mutations:
+            hit = sorted(o for o in m.origins if origin_pred(o))
+            if not hit:
+                continue
+            n += 1
+            inst = f"{f.qualname}:{m.target_src}:{m.how}:{m.node.lineno}"
+            ok = bool(m.exempt)
+            run.oblige(rule, inst, ok, sample={"where": m.where, "origin": hit,
+                                               "exempt": m.exempt})
+            if not ok:
+                for o in hit:
+                    run.add(rule, f"{f.qualname}/{o}/{m.how}", m.where,
+                            f"{f.qualname} edits `{m.target_src}` in place ({m.how}), "
+                            f"which may alias {o} ({what})")
+        for (target, pn, o, node, pos, src) in fa.calls_passing:
+            hit = sorted(x for x in o if origin_pred(x))
+            if not hit:
+                continue
+            n += 1
+            mp = an.mut_params.get(target, {})
+            bad = pn in mp
+            run.oblige(rule, f"{f.qualname}->{target.qualname}({pn}):{node.lineno}",
+                       not bad, sample={"where": f"{f.module.relpath}:{node.lineno}",
+                                        "origin": hit})
+            if bad:
+                for x in hit:
+                    run.add(rule, f"{f.qualname}/{x}/via:{target.qualname}",
+                            f"{f.module.relpath}:{node.lineno}",
+                            f"{f.qualname} passes `{src}` ({x}) to {target.qualname}, "
+                            f"which edits its parameter `{pn}` in place ({what})")
+    run.floor(f"{rule} bindings of {what}", n, floor)
+    return n
